@@ -1,6 +1,6 @@
 package main
 
-// Directed worlds around the two findings of C06 (and their well-behaved neighbours).
+// Directed worlds around the finding of C06 (and its well-behaved neighbours), and the emptiness boundary.
 
 import (
 	"verifharness/kit"
